@@ -23,14 +23,14 @@ import (
 var httpEndpoints = []string{"e1", "e10", "e1-x", "api", "ghost"} // "ghost" never gets an upstream
 var tcpEndpoints = []string{"t1", "t10", "tghost"}
 
-var h3Ops = []string{"listen", "unlisten", "http", "tcp", "wait", "partition", "heal", "shutdown", "kill", "sync", "fwdprobe", "slowclient", "stall"}
+var h3Ops = []string{"listen", "unlisten", "http", "tcp", "wait", "partition", "heal", "shutdown", "kill", "sync", "fwdprobe", "slowclient", "stall", "dropep"}
 
 var h3Profiles = map[string][]int{
 	//      lsn unl http tcp wait part heal shut kill sync fwd
-	"C01": {14, 8, 34, 10, 14, 3, 3, 1, 1, 4, 0, 0, 0},
-	"C06": {10, 8, 26, 18, 10, 10, 4, 0, 0, 2, 10, 0, 0},
-	"C05": {20, 18, 14, 4, 14, 2, 2, 0, 0, 2, 0, 0, 0},
-	"C16": {22, 22, 14, 4, 10, 2, 2, 3, 1, 2, 0, 5, 3},
+	"C01": {14, 8, 34, 10, 14, 3, 3, 1, 1, 4, 0, 0, 0, 2},
+	"C06": {14, 6, 24, 18, 10, 10, 4, 0, 0, 2, 10, 0, 0, 8},
+	"C05": {20, 18, 14, 4, 14, 2, 2, 0, 0, 2, 0, 0, 0, 2},
+	"C16": {22, 22, 14, 4, 10, 2, 2, 3, 1, 2, 0, 5, 3, 2},
 }
 
 func genCluster(prop string) func(rng *simkit.Rand, tier string, idx int) *simkit.Case {
@@ -44,6 +44,8 @@ func genCluster(prop string) func(rng *simkit.Rand, tier string, idx int) *simki
 		c.Cfg["pkt_drop"] = int64([]int{0, 0, 50, 200}[rng.Intn(4)])
 		c.Cfg["pkt_dup"] = int64([]int{0, 50}[rng.Intn(2)])
 		c.Cfg["yield_den"] = []int64{0, 64, 8, 2}[rng.Intn(4)]
+		c.Cfg["stall_den"] = []int64{0, 0, 200}[rng.Intn(3)] // execution-time fault in a third of the runs
+		c.Cfg["stall_max_us"] = 500
 		c.Cfg["net_quantum_us"] = []int64{0, 1000}[rng.Intn(2)]
 		c.Cfg["stream_delay_us"] = []int64{0, 200, 2000}[rng.Intn(3)]
 		c.Cfg["segment"] = []int64{0, 300}[rng.Intn(2)]
@@ -166,6 +168,8 @@ func execCluster(prop string) func(run *simkit.Run) {
 				w.opForwardedProbe(op.A, op.B)
 			case "stall":
 				w.opStall(op.A, op.B)
+			case "dropep":
+				w.opDropEndpoint(op.A, op.B)
 			case "slowclient":
 				// a client that connects to a port and then says nothing (yet)
 				if live := w.liveNodes(); len(live) > 0 {
@@ -255,6 +259,81 @@ func (w *cluster3) opUnlisten(a, mode int) {
 	}
 }
 
+// opDropEndpoint: every upstream application of one endpoint goes away at the
+// same instant (the upstream service is redeployed), and requests for it
+// arrive at every node right then - while each node that just lost its
+// upstream still believes the others have one. Stale tables may cost a 502,
+// never a second hop.
+func (w *cluster3) opDropEndpoint(a, b int) {
+	byEp := map[string][]*app{}
+	var eps []string
+	for _, ap := range w.liveApps("") {
+		if ap.agent != nil {
+			continue
+		}
+		if len(byEp[ap.endpoint]) == 0 {
+			eps = append(eps, ap.endpoint)
+		}
+		byEp[ap.endpoint] = append(byEp[ap.endpoint], ap)
+	}
+	if len(eps) == 0 {
+		return
+	}
+	// prefer an endpoint served from several nodes
+	ep := eps[a%len(eps)]
+	for i := range eps {
+		cand := eps[(a+i)%len(eps)]
+		nodes := map[int]bool{}
+		for _, ap := range byEp[cand] {
+			nodes[ap.node] = true
+		}
+		if len(nodes) >= 2 {
+			ep = cand
+			w.run.Probe("dropep.multi_node_endpoint")
+			break
+		}
+	}
+	w.run.Logf("all %d upstream applications of %q go away at once", len(byEp[ep]), ep)
+	w.run.Fault("endpoint_dropped")
+	w.lastChurn = time.Now().Add(40 * w.intv)
+	for _, ap := range byEp[ep] {
+		if b%2 == 0 {
+			ap.shutdown()
+		} else {
+			ap.closed = true
+			ap.cancel()
+			src := ap.host()
+			w.nw.ResetConns(func(s, d string) bool { return s == src })
+			if ap.ln != nil {
+				ap.ln.Shutdown()
+			}
+			if ap.srv != nil {
+				go ap.srv.Close()
+			}
+		}
+	}
+	tcp := -1
+	for i, t := range tcpEndpoints {
+		if t == ep {
+			tcp = i
+		}
+	}
+	for round := 0; round < 2; round++ {
+		for i := range w.liveNodes() {
+			if tcp >= 0 {
+				w.opTCP(i, tcp, 1+b%200, false)
+			} else {
+				for j, h := range httpEndpoints {
+					if h == ep {
+						w.opHTTP(i, j, 0, false)
+					}
+				}
+			}
+		}
+		time.Sleep(w.intv / 2)
+	}
+}
+
 // opStall: the connection of one upstream application stalls (nothing is
 // delivered either way for a while, nothing is lost, nothing is closed) while
 // requests are sent to it - first ones whose bodies fill the connection's
@@ -323,7 +402,7 @@ func (w *cluster3) stopNode(n *node, graceful, reset bool) {
 		n.stopped = true
 		run.Logf("%s graceful shutdown took %v", n.id, time.Since(t0))
 		run.Probe("node_shutdown")
-		synctest.Wait()
+		w.quiesce()
 		if own := n.srv.ClusterState().LocalNode().Endpoints; len(own) != 0 {
 			rule := "C18.withdraw"
 			if w.prop == "C16" {
@@ -545,7 +624,7 @@ func (w *cluster3) checkRegisteredWithin(halfSeconds int) {
 	var why string
 	for i := 0; i < halfSeconds; i++ {
 		time.Sleep(500 * time.Millisecond)
-		synctest.Wait()
+		w.quiesce()
 		adv := map[string]int{}
 		for _, n := range w.liveNodes() {
 			for ep, c := range n.srv.ClusterState().LocalNode().Endpoints {
@@ -593,7 +672,7 @@ func (w *cluster3) finalDrain() {
 		a.shutdown()
 	}
 	time.Sleep(3 * time.Second)
-	synctest.Wait()
+	w.quiesce()
 	for _, n := range w.liveNodes() {
 		if own := n.srv.ClusterState().LocalNode().Endpoints; len(own) != 0 {
 			w.run.Fail("C16.drain", "advertising-after-all-upstreams-gone", "every upstream application has disconnected but %s still advertises [%s]", n.id, epString(own))
